@@ -196,9 +196,9 @@ pub fn suite_format_unicode(ctx: &Ctx, thorough: bool, props: &str) {
                     let _ = write!(sink, "{}", first);
                     let got = second.to_string();
                     if got != texts[j] {
-                        ctx.violate("C03.format", "to_string() == documented shape and escaping (after an earlier write failed)", json!({"first": texts[i], "sink_capacity": k, "second": texts[j]}), got, texts[j].to_string());
+                        ctx.violate("C03.format", "to_string() == documented shape and escaping (after an earlier write failed)", json!({"first": texts[i], "sink_capacity": k, "second": texts[j]}), got.clone(), texts[j].to_string());
                     }
-                    let again = GenericPurl::<String>::from_str(&second.to_string());
+                    let again = GenericPurl::<String>::from_str(&got);
                     if again.as_ref().ok() != Some(second) {
                         ctx.violate("C01.roundtrip", "canonical string parses to an equal PURL", json!({"first": texts[i], "sink_capacity": k, "second": texts[j]}), format!("{:?}", again.as_ref().map(|p| Obs::of(p))), texts[j].to_string());
                         ctx.violate("C09.reparse", "the string form yields the same field values (after an earlier write failed)", json!({"first": texts[i], "sink_capacity": k, "second": texts[j]}), format!("{:?}", again.as_ref().map(|p| Obs::of(p))), texts[j].to_string());
@@ -348,6 +348,14 @@ pub fn suite_preds(ctx: &Ctx, thorough: bool) {
         if let Ok(Ok(p)) = guarded(|| GenericPurlBuilder::new(SmallString::from(s.as_str()), "n").build()) {
             if let Err(m) = guarded(|| p.to_string()) {
                 ctx.violate("C06.panic", "formatting a PURL obtained with a built-in type parameter never panics", json!({"type": s, "shape": "SmallString"}), m, "a string".into());
+            }
+        }
+        for owned in [false, true] {
+            let t: std::borrow::Cow<str> = if owned { std::borrow::Cow::Owned(s.clone()) } else { std::borrow::Cow::Borrowed(s.as_str()) };
+            if let Ok(Ok(p)) = guarded(|| GenericPurlBuilder::new(t, "n").build()) {
+                if let Err(m) = guarded(|| p.to_string()) {
+                    ctx.violate("C06.panic", "formatting a PURL obtained with a built-in type parameter never panics", json!({"type": s, "shape": if owned { "Cow::Owned" } else { "Cow::Borrowed" }}), m, "a string".into());
+                }
             }
         }
         let shapes: Vec<(&str, Result<String, ()>)> = vec![
@@ -863,6 +871,14 @@ pub fn suite_comb(ctx: &Ctx, thorough: bool) {
             };
             let b = Purl::builder_with_combined_name(t, s.as_str());
             let inp = || json!({"type": t.name(), "combined": s});
+            // the same split whatever the argument's kind (owned, borrowed, copy-on-write)
+            for (kind, b2) in [("String", Purl::builder_with_combined_name(t, s.clone())), ("&String", Purl::builder_with_combined_name(t, s)),
+                               ("Cow::Owned", Purl::builder_with_combined_name(t, std::borrow::Cow::<str>::Owned(s.clone()))),
+                               ("Cow::Borrowed", Purl::builder_with_combined_name(t, std::borrow::Cow::Borrowed(s.as_str())))] {
+                if b2.parts.namespace != b.parts.namespace || b2.parts.name != b.parts.name {
+                    ctx.violate("U-comb.builder_with_combined_name", "split after the last '/' (golang, npm) / first ':' (maven) / not at all", json!({"type": t.name(), "combined": s, "argument": kind}), format!("{:?} {:?}", b2.parts.namespace, b2.parts.name), format!("{:?} {:?}", b.parts.namespace, b.parts.name));
+                }
+            }
             if b.parts.namespace.as_str() != wns || b.parts.name.as_str() != wname {
                 ctx.violate("U-comb.builder_with_combined_name", "split after the last '/' (golang, npm) / first ':' (maven) / not at all", inp(), format!("{:?} {:?}", b.parts.namespace, b.parts.name), format!("{wns:?} {wname:?}"));
             }
@@ -876,6 +892,12 @@ pub fn suite_comb(ctx: &Ctx, thorough: bool) {
                 if ok_side {
                     ctx.nontrivial();
                     let c = p.combined_name().into_owned();
+                    // fed back as the copy-on-write value combined_name() returns, and as a plain &str
+                    let cow = p.combined_name();
+                    let same_kind = guarded(|| Purl::builder_with_combined_name(t, cow).build());
+                    if !matches!(&same_kind, Ok(Ok(p2)) if p2.namespace() == p.namespace() && p2.name() == p.name()) {
+                        ctx.violate("U-comb.combined_name", "feeding combined_name() back reproduces namespace and name", inp(), format!("{c:?} (as returned) -> {:?}", same_kind.map(|r| r.map(|p| Obs::of(&p)))), format!("{:?}", Obs::of(&p)));
+                    }
                     match guarded(|| Purl::builder_with_combined_name(t, c.as_str()).build()) {
                         Ok(Ok(p2)) if p2.namespace() == p.namespace() && p2.name() == p.name() => {},
                         other => ctx.violate("U-comb.combined_name", "feeding combined_name() back reproduces namespace and name", inp(), format!("{c:?} -> {:?}", other.map(|r| r.map(|p| Obs::of(&p)))), format!("{:?}", Obs::of(&p))),
